@@ -244,6 +244,18 @@ func mcVariants() []mcVariant {
 		{name: "late-start-detached+L", cfg: L, liveness: true, set: merge(detached, twoIds, lateStart)},
 		{name: "old-late-start-detached+L", cfg: L, liveness: true, expect: "Temporal property EndsAll was violated",
 			set: merge(detached, twoIds, lateStart, map[string]string{"FixLate": "FALSE", "INVARIANTS": "TypeOK Refines", "PROPERTIES": "EndsAll"})},
+		// two closers and a stalled writer (close path in single steps, the writer sits in Send holding mu)
+		{name: "stall-two-closers+L", cfg: L, liveness: true, set: merge(oneInst, map[string]string{"Stalls": "TRUE", "MCInitFn": "TRUE", "MCCancel": "TRUE",
+			"MaxMsgs": "2", "K": "1", "SrcKinds": "<- KindsEnd", "Alphabet": "<- AlphaStall"})},
+		// the seeded designs must be refuted by the model:
+		//  C11b-1 `closed` tested outside mu, set inside -> second close frame / CloseFunc twice
+		{name: "seed-close-check-outside", cfg: S, expect: "Invariant Refines is violated", set: merge(oneInst, map[string]string{"CloseCheckOutside": "TRUE",
+			"MCInitFn": "TRUE", "MCCancel": "TRUE", "MaxMsgs": "2", "K": "1", "SrcKinds": "<- KindsEnd", "Alphabet": "<- AlphaStall"})},
+		//  C11b-2 the stop handler deletes active[id] -> the id is reused while its operation still runs,
+		//  the old operation's deferred delete removes the NEW registration, stop no longer cancels it
+		{name: "seed-stop-deletes", cfg: S, expect: "Invariant Refines is violated", set: map[string]string{"StopDeletes": "TRUE", "K": "0", "SrcKinds": "<- KindsEnd", "Alphabet": "<- AlphaOpsS", "MaxMsgs": "4"}},
+		{name: "seed-stop-deletes-stop-not-cancelling", cfg: S, expect: "Invariant StopCancelsI is violated", set: map[string]string{"StopDeletes": "TRUE", "AllowDupStart": "TRUE",
+			"K": "0", "SrcKinds": "<- KindsEnd", "Alphabet": "<- AlphaOpsS", "MaxMsgs": "4", "INVARIANTS": "TypeOK Refines StopCancelsI"}},
 		// the pinned tree: TLC must reproduce the known findings
 		{name: "pinned-dup-start", cfg: "MC_WsImpl_pinned.cfg", expect: "Invariant Refines is violated", set: map[string]string{}},
 		{name: "pinned-stop-not-cancelling", cfg: "MC_WsImpl_pinned.cfg", expect: "Invariant StopCancelsI is violated",
@@ -343,6 +355,22 @@ func replayFamilies(thorough bool) []family {
 		{name: "ops-gws", set: opsG, proto: "gws", pre: true, limit: lim},
 		{name: "ops-tws", set: opsT, proto: "tws", pre: true, limit: lim},
 	}
+	// a stalled socket (the writer of a data frame holds mu) x the closers: terminate / duplicate id /
+	// second init on the read loop, the server-side cancel on closeOnCancel - replayed through the gate
+	stallG := merge(oneInst, map[string]string{"PreAcked": "TRUE", "Stalls": "TRUE", "Bursts": "FALSE", "Alphabet": "<- AlphaStall", "BadStarts": "FALSE",
+		"MCInitTimeout": "FALSE", "MaxMsgs": "2", "K": "2", "SrcKinds": "<- KindsEnd"})
+	stallT := merge(tws, map[string]string{"PreAcked": "TRUE", "Stalls": "TRUE", "Bursts": "FALSE", "Alphabet": "<- AlphaStallT", "BadStarts": "FALSE",
+		"MCInitTimeout": "FALSE", "MaxMsgs": "3", "K": "1", "SrcKinds": "<- KindsEnd"})
+	// a Source that lingers after its cancellation x reuse of its id (start, stop, start again, ...)
+	reuseG := map[string]string{"PreAcked": "TRUE", "Linger": "TRUE", "Bursts": "FALSE", "Alphabet": "<- AlphaStall", "BadStarts": "FALSE",
+		"MCInitTimeout": "FALSE", "MCCancel": "FALSE", "MaxMsgs": "4", "K": "0", "SrcKinds": "<- KindsEnd"}
+	reuseT := merge(reuseG, tws, map[string]string{"Alphabet": "<- AlphaStallT"})
+	small := lim * 4 / 7
+	fs = append(fs,
+		family{name: "stall-gws", set: stallG, proto: "gws", pre: true, limit: small},
+		family{name: "stall-tws", set: stallT, proto: "tws", pre: true, limit: small},
+		family{name: "reuse-gws", set: reuseG, proto: "gws", pre: true, limit: small},
+		family{name: "reuse-tws", set: reuseT, proto: "tws", pre: true, limit: small})
 	if thorough {
 		fs = append(fs,
 			family{name: "ops-gws-K2", set: merge(opsG, map[string]string{"K": "2", "AllInsts": "<- MCInsts1", "Ids": "<- MCIds1", "IdOfInst": "<- MCIdOf1", "InstOrder": "<- MCOrder1", "MaxMsgs": "4"}), proto: "gws", pre: true, limit: lim},
@@ -511,12 +539,44 @@ func special(h histLine) int {
 	if len(h.H) > 0 && h.H[0].A.ID == "initbad" {
 		r += 5
 	}
+	// a stalled socket with a data frame in it and closers arriving meanwhile
+	stalled, data, closers := false, false, 0
+	for _, e := range h.H {
+		switch {
+		case e.A.Name == "StallOn":
+			stalled = true
+		case e.A.Name == "StallOff":
+			stalled = false
+		case stalled && e.A.Name == "SrcEmit":
+			data = true
+		case stalled && data && (e.A.Name == "SrvCancel" || e.A.Name == "CSend" && (e.A.ID == "term" || e.A.ID == "start" || e.A.ID == "init")):
+			closers++
+		}
+	}
+	if closers >= 2 {
+		r += 6
+	} else if closers == 1 {
+		r += 1
+	}
+	// an id started again while its stopped operation still lingers
+	stopped := map[string]bool{}
+	for _, e := range h.H {
+		if e.A.Name == "CSend" && e.A.ID == "stop" {
+			stopped[e.A.I] = true
+		}
+		if e.A.Name == "SrcRelease" {
+			delete(stopped, strings.TrimRight(e.A.I, "0123456789"))
+		}
+		if e.A.Name == "CSend" && e.A.ID == "start" && stopped[strings.TrimRight(e.A.I, "0123456789")] {
+			r += 4
+		}
+	}
 	return r
 }
 
 func scriptScenario(fam family, h histLine, id string) *Scenario {
 	sc := &Scenario{ID: id, Mode: "replay", End: "abort"}
-	sc.Cfg = Cfg{Proto: fam.proto, InitFn: "none"}
+	sc.Cfg = Cfg{Proto: fam.proto, InitFn: "none", LingerGate: fam.set["Linger"] == "TRUE"}
 	if fam.set["MCInitFn"] != "FALSE" { // the script template configures an InitFunc
 		sc.Cfg.InitFn = "accept"
 		if h.Fnres == "reject" {
@@ -534,6 +594,7 @@ func scriptScenario(fam family, h histLine, id string) *Scenario {
 		}
 		sc.Steps = append(sc.Steps, Step{Op: "send", M: "init", Expect: want})
 	}
+	afterStall := false
 	for j, e := range h.H {
 		var next json.RawMessage
 		if j+1 < len(h.H) {
@@ -569,8 +630,22 @@ func scriptScenario(fam family, h histLine, id string) *Scenario {
 		case "InitTimeout":
 			st.Op = "sleep"
 			sc.Cfg.InitTimeout = 120
+		case "StallOn":
+			st.Op = "stall"
+		case "StallOff":
+			st.Op = "unstall"
+			afterStall = true
+		case "SrcRelease":
+			st.Op, st.M, st.Inst = "src", "release", e.A.I
+			sc.Cfg.LingerGate = true
 		default:
 			vlib.Infra("script %s: unknown environment action %s", id, e.A.Name)
+		}
+		if afterStall {
+			// when the stall ends everything that queued up behind the stalled writer (reader, closers,
+			// workers) races for mu: the model's canonical order is ONE of the legal outcomes, so from
+			// here on the prediction is not compared (the property-level verdict is unaffected)
+			st.Expect, st.Sync = nil, true
 		}
 		if e.B && len(sc.Steps) > 0 && sc.Steps[len(sc.Steps)-1].Op == "send" && st.Op == "send" {
 			// second frame of one client write: merged with the previous step, expectation of the second
@@ -607,6 +682,7 @@ func randomScenario(rng *rand.Rand, id string) *Scenario {
 		sc.Cfg.KA = []int{0, 1, 1, 4}[rng.Intn(4)]
 	}
 	sc.Cfg.LingerMs = []int{0, 0, 3, 15}[rng.Intn(4)]
+	sc.Cfg.LingerGate = rng.Intn(8) == 0 // lingering Sources return when the session ends (or on "release")
 	sc.End = pick("abort", "abort", "closef", "term", "cancel")
 	sync := func() bool { return rng.Intn(10) < 6 }
 	// the first message
@@ -626,6 +702,7 @@ func randomScenario(rng *rand.Rand, id string) *Scenario {
 	if len(sc.Steps) == 2 || sc.Steps[0].Op == "send2" {
 		count["1"] = 1
 	}
+	stalledNow := false
 	var live []string // instances started and not yet told to end
 	n := 2 + rng.Intn(8)
 	for k := 0; k < n; k++ {
@@ -698,8 +775,15 @@ func randomScenario(rng *rand.Rand, id string) *Scenario {
 			if rng.Intn(2) == 0 {
 				live = l2 // (otherwise later commands race with the cancellation)
 			}
-		case r < 80:
+		case r < 77:
 			sc.Steps = append(sc.Steps, Step{Op: "sleep", Ms: 1 + rng.Intn(12)})
+		case r < 80: // the peer stops reading for a while / reads again
+			if stalledNow {
+				sc.Steps = append(sc.Steps, Step{Op: "unstall", Sync: sync()})
+			} else {
+				sc.Steps = append(sc.Steps, Step{Op: "stall"})
+			}
+			stalledNow = !stalledNow
 		case r < 86 && tw:
 			sc.Steps = append(sc.Steps, Step{Op: "send", M: pick("ping", "pong", "pong"), Sync: sync()})
 		case r < 90:
@@ -786,6 +870,51 @@ func specialScenarios(thorough bool) []*Scenario {
 				{Op: "send", M: "stop", ID: "1"},
 				{Op: "sleep", Ms: 5},
 				{Op: "cancel", Sync: true}}},
+			// two closers in flight behind a writer that is stalled on a slow peer (holding mu): the client
+			// terminates / repeats an id / repeats init on the read loop, the server cancels the InitFunc context
+			&Scenario{ID: "two-closers-stalled-writer-" + p, Mode: "special", Cfg: Cfg{Proto: p, InitFn: "accept"}, End: "abort", Steps: []Step{init,
+				start("1", "1x1"),
+				{Op: "src", Inst: "1x1", M: "emit", Sync: true},
+				{Op: "stall"},
+				{Op: "src", Inst: "1x1", M: "emit"},
+				{Op: "send", M: map[string]string{"gws": "term", "tws": "init"}[p]},
+				{Op: "cancel"},
+				{Op: "unstall", Sync: true}}},
+			&Scenario{ID: "two-closers-stalled-writer-cancel-first-" + p, Mode: "special", Cfg: Cfg{Proto: p, InitFn: "accept", Reason: true}, End: "abort", Steps: []Step{init,
+				start("1", "1x1"),
+				{Op: "stall"},
+				{Op: "src", Inst: "1x1", M: "emit"},
+				{Op: "cancel"},
+				{Op: "send", M: map[string]string{"gws": "term", "tws": "init"}[p]},
+				{Op: "unstall", Sync: true}}},
+			&Scenario{ID: "two-closers-stalled-writer-dup-id-" + p, Mode: "special", Cfg: Cfg{Proto: p, InitFn: "detached"}, End: "abort", Steps: []Step{init,
+				start("1", "1x1"), start("2", "2x1"),
+				{Op: "stall"},
+				{Op: "src", Inst: "2x1", M: "emit"},
+				{Op: "send", M: "start", ID: "1", Inst: "1x2", Kind: "ok"},
+				{Op: "cancel"},
+				{Op: "unstall", Sync: true}}},
+			// an id is used again while its stopped operation still lingers (gate), then the old operation
+			// ends, then stop(id) - or the connection ends - : the operation that runs under the id must be cancelled
+			&Scenario{ID: "reuse-id-after-stop-then-stop-" + p, Mode: "special", Cfg: Cfg{Proto: p, InitFn: "accept", LingerGate: true}, End: "abort", Steps: []Step{init,
+				start("1", "1x1"),
+				{Op: "send", M: "stop", ID: "1", Sync: true},
+				start("1", "1x2"),
+				{Op: "src", Inst: "1x1", M: "release", Sync: true},
+				{Op: "src", Inst: "1x2", M: "emit", Sync: true},
+				{Op: "send", M: "stop", ID: "1", Sync: true}}},
+			&Scenario{ID: "reuse-id-after-stop-then-close-" + p, Mode: "special", Cfg: Cfg{Proto: p, InitFn: "detached", LingerGate: true}, End: endMsg, NoEpilogue: true, Steps: []Step{init,
+				start("1", "1x1"),
+				{Op: "send", M: "stop", ID: "1", Sync: true},
+				start("1", "1x2"),
+				{Op: "src", Inst: "1x1", M: "release", Sync: true}}},
+			&Scenario{ID: "reuse-id-after-stop-third-start-" + p, Mode: "special", Cfg: Cfg{Proto: p, InitFn: "none", LingerGate: true}, End: "abort", Steps: []Step{init,
+				start("1", "1x1"),
+				{Op: "send", M: "stop", ID: "1", Sync: true},
+				start("1", "1x2"),
+				{Op: "src", Inst: "1x1", M: "release", Sync: true},
+				start("1", "1x3"),
+				{Op: "send", M: "stop", ID: "1", Sync: true}}},
 			// a client that never says anything, InitTimeout configured: close 1002, CloseFunc once, nothing left
 			&Scenario{ID: "silent-client-init-timeout-" + p, Mode: "special", Cfg: Cfg{Proto: p, InitFn: "accept", InitTimeout: 80}, End: "abort", Steps: []Step{
 				{Op: "sleep", Ms: 400, Sync: true}}},
